@@ -147,6 +147,9 @@ class PredictWorld:
         with active(self.ctx):
             ts = per_path(self.teams(**kw))
             out = self.ctx.merged(lambda i: call(getattr(self.m, op), ts(i)))
+        if self.generic:
+            from .. import teams as T
+            T.guard(out)
         return out
 
     def spec(self, which, beta=None, details=None):
@@ -166,6 +169,9 @@ class PredictWorld:
             t1, t2 = per_path(self.teams(**kw)), per_path(self.teams(**kw))
             self.ctx.merged(lambda i: call(getattr(self.m, op), t1(i)))
             out = self.ctx.merged(lambda i: call(getattr(m2, op), t2(i)))
+        if self.generic:
+            from .. import teams as T
+            T.guard(out)
         return out, p2["beta"]
 
     def run_after_history(self, op, **kw):
